@@ -92,3 +92,67 @@ def run_float(ctx, rep, cfg="Q", rule="FLOAT-SIGN", floor=4):
                     ords["tie"] = ords.get("tie", 0) + 1
                     rep.ok(rule, norm_key("%s | FLOAT-TIE#%d" % (f.key, ords["tie"])), how="the remainder is made absolute", loc=loc)
     rep.floor(rule + " sites", n, floor)
+
+
+def run_floatdiv(ctx, rep, cfg="Q", rule="FLOAT-DIV", floor=8):
+    """a float division by zero does not panic - it silently produces inf or NaN, which then flows into the result or is
+    cast to an integer; every float division needs a divisor that cannot be zero"""
+    from .guards import guards, strip_not
+    from .report import load_tsv
+    rep.rule(rule, "every floating-point division in the crate has a divisor that is a non-zero constant, or is dominated by a branch "
+                   "that compares the divisor (or the integer it was converted from) with zero and leaves on equality, or carries a "
+                   "reviewed reason; division by a zero-length window yields NaN/inf (a zero span's total, a reference day that does "
+                   "not exist in the zone)")
+    prog = ctx.prog(cfg)
+    reviewed = load_tsv("floatdiv")
+    n = 0
+    for f in sorted(prog.fns.values(), key=lambda f: f.key):
+        if f.crate != "jiff":
+            continue
+        sites = [(bi, si, s) for bi, b in enumerate(f.blocks) for si, s in enumerate(b["st"])
+                 if s["s"] == "=" and s["rv"]["k"] == "bin" and s["rv"]["op"] == "Div" and s["rv"].get("ty") in ("f64", "f32")]
+        if not sites:
+            continue
+        T = Terms(f)
+        cfg_ = mir.CFG(f)
+        ords = 0
+        for (bi, si, s) in sites:
+            n += 1
+            ords += 1
+            key = norm_key("%s | FLOAT-DIV#%d" % (f.key, ords))
+            loc = "%s:%s" % (f.file, s.get("ln"))
+            d = T.operand(s["rv"]["b"], pos=(bi, si))
+            core = d
+            while core[0] == "cast" or (core[0] == "call" and core[1].endswith(("::get", "::rinto", "::rfrom")) and core[2]):
+                core = core[1] if core[0] == "cast" else core[2][0]
+            if core[0] == "const" and isinstance(core[1], int) and core[1] != 0:
+                rep.ok(rule, key, how="non-zero constant divisor", loc=loc, nontrivial=False)
+                continue
+            fc = _fconst(core)
+            if fc is not None and fc != 0.0:
+                rep.ok(rule, key, how="non-zero constant divisor", loc=loc, nontrivial=False)
+                continue
+            guarded = False
+            for (c, truth, _sb) in guards(f, cfg_, T, bi):
+                c2, tr2 = strip_not(c, truth)
+                if c2[0] == "call" and c2[1].rsplit("::", 1)[-1] in ("eq", "ne") and len(c2[2]) == 2:
+                    a, b = c2[2]
+                    zero = lambda t: (t[0] == "const" and t[1] == 0) or _fconst(t) == 0.0 or (t[0] == "call" and t[1].rsplit("::", 1)[-1] in ("C", "C128", "N") and (not t[2] or t[2][0] == ("const", 0)))
+                    is_eq = c2[1].rsplit("::", 1)[-1] == "eq"
+                    nonzero_edge = (is_eq and tr2 is False) or (not is_eq and tr2 is True)
+                    if nonzero_edge and ((a in (d, core) and zero(b)) or (b in (d, core) and zero(a))):
+                        guarded = True
+                    # x1 != x0 for a divisor x1 - x0
+                    if nonzero_edge and core[0] == "call" and core[1].endswith("::sub") and len(core[2]) == 2 and {a, b} == set(core[2]):
+                        guarded = True
+                if c2[0] == "bin" and c2[1] in ("Eq", "Ne"):
+                    a, b = c2[2], c2[3]
+                    nonzero_edge = (c2[1] == "Eq" and tr2 is False) or (c2[1] == "Ne" and tr2 is True)
+                    if nonzero_edge and ((a in (d, core) and (_fconst(b) == 0.0 or b == ("const", 0))) or (b in (d, core) and (_fconst(a) == 0.0 or a == ("const", 0)))):
+                        guarded = True
+            if guarded:
+                rep.ok(rule, key, how="dominated by a test that the divisor is not zero", loc=loc)
+            else:
+                rep.classify(rule, key, reviewed, loc=loc,
+                             detail="the divisor %s can be zero and nothing tests it: the quotient is NaN or infinite" % show(d, maxd=4)[:140])
+    rep.floor(rule + " sites", n, floor)
